@@ -305,7 +305,7 @@ func runGroup(hs []HarnessSpec) []*HarnessReport {
 				// so constants are dumped from the unmutated tree unless the mutant touches none of them
 				_ = hh
 			}
-			gd, gerr := dumpGlobals(h, h.Globals)
+			gd, gerr := dumpGlobals(h, h.Globals, overlay)
 			if gerr != nil {
 				rep.ToolError = gerr.Error()
 				continue
